@@ -86,4 +86,30 @@ def set_table(ctx, rep, prog, op, rule, floor, desc, sizes=None):
                     "extracted": str(r.get("actual")), "reference": str(r.get("expected"))})
     rep.analysed_item("range::Range::%s interpreted over interval tokens of a free Boolean algebra, sizes %s, %d cases"
                       % (op, sizes, len(rows)))
+    range_level1(ctx, rep, prog, op)
     return rows
+
+
+def range_level1(ctx, rep, prog, op):
+    """Range-level operation on concrete interval shapes (two-sided intervals over version tokens, every weak ordering
+    of the endpoints): decides code that looks *inside* the alternatives (ordering assumptions, early exits), which the
+    Boolean-algebra lifting cannot see. Reference: membership of every elementary segment of the version line."""
+    rule = "R-L1-" + op
+    env = intervals.Env(prog)
+    shapes = intervals.RANGE_SHAPES_THOROUGH if ctx.thorough else intervals.RANGE_SHAPES_QUICK
+    sizes = [(1, 2), (2, 1)] if op != "allows_all" else [(2, 1), (1, 1)]
+    rows = intervals.range_table(prog, env, op, sizes, shapes)
+    rep.rule(rule, 1000, "Range::%s on alternatives given as concrete two-sided intervals, all endpoint orderings" % op)
+    fn = "range::Range::" + op
+    for r in rows:
+        rep.path((rule, r["sig"]))
+        if "inconclusive" in r:
+            rep.inconc("%s: %s" % (rule, r["inconclusive"][0]), r["inconclusive"][1])
+            continue
+        if not r["problems"]:
+            rep.ok(rule)
+            continue
+        kind, detail = r["problems"][0]
+        rep.fail(rule, "%s|%s|A=%d,B=%d %s" % (fn, rule, r["na"], r["nb"], kind),
+                 "%s: %s (%s)" % (kind, detail, r["key"]), where=r.get("ret"), actual=r.get("actual"), example=r.get("example"))
+    rep.analysed_item("%s on %d concrete-interval cases (shapes %s)" % (fn, len(rows), shapes))
